@@ -163,6 +163,14 @@ pub fn check_program(prog: &Program, seed: u64, thorough: bool, rep: &mut Report
 }
 
 pub fn run(p: &Params, rep: &mut Report) {
+    if p.shard == 5 {
+        let n = if p.thorough { 150_000 } else { 70_000 };
+        super::deep::probe(rep, "re-chain", n, "ok", "witness", p.seed);
+    }
+    if p.shard == 4 {
+        let n = if p.thorough { super::scale::N_THOROUGH } else { super::scale::N_QUICK };
+        super::scale::c05(rep, n, p.seed);
+    }
     let stride = 1;
     for_tiny_programs(p, rep, stride, p.size(150, 3000), |prog, seed, rep| check_program(prog, seed, p.thorough, rep));
     let n = p.size(200, 1200);
@@ -171,6 +179,10 @@ pub fn run(p: &Params, rep: &mut Report) {
 }
 
 pub fn replay(kind: &str, text: &str, seed: u64, rep: &mut Report) -> bool {
+    if kind == "scale" {
+        super::scale::c05(rep, text.trim().parse().unwrap_or(super::scale::N_QUICK), seed);
+        return true;
+    }
     if kind != KIND_MGR {
         return false;
     }
